@@ -213,6 +213,7 @@ def derived_gates(F, G, E):
     if hasattr(G, "_derived"):
         return G._derived
     out = {}
+    G._derived_neg = {}
     for b in F.body_list:
         if b["kind"] not in ("Fn", "AssocFn") or "output" not in b:
             continue
@@ -223,6 +224,22 @@ def derived_gates(F, G, E):
         G._derived = out  # guard against recursion through gate_edges_with_order
         edges = [(x, y, o) for (x, y, roots, o) in _direct_gate_edges(F, G, B) if 1 in roots]
         if not edges:
+            # no branch: `(!this.is_unique()).then(|| copy)` / `this.is_unique().then_some(..)`: the variant is the gate's answer
+            from .. import symx as _sx
+
+            e = _sx.fn_value(F, b)
+            while isinstance(e, tuple) and e and e[0] in ("bb", "addr"):
+                e = e[-1] if e[0] == "bb" else e[1]
+            if isinstance(e, tuple) and e and e[0] == "call" and e[1] in ("<bool>::then", "<bool>::then_some") and e[3]:
+                c0, negd = e[3][0], False
+                while isinstance(c0, tuple) and c0 and c0[0] == "un" and c0[1] == "Not":
+                    c0, negd = c0[2], not negd
+                if isinstance(c0, tuple) and c0 and c0[0] == "call" and c0[1] in G.gates and G.gates[c0[1]][0] != "BAD" and c0[3]:
+                    a0 = c0[3][0]
+                    while isinstance(a0, tuple) and a0 and a0[0] in ("addr", "proj") and (a0[0] == "addr" or all(n == "*" for n in a0[2])):
+                        a0 = a0[1]
+                    if a0 == ("arg", 1):
+                        (G._derived_neg if negd else out)[b["key"]] = G.gates[c0[1]][0]
             continue
         try:
             prs = E.toplevel(b["key"])
@@ -247,6 +264,28 @@ def derived_gates(F, G, E):
                     ok = False
         if ok and pos and neg:
             out[b["key"]] = sorted(orders, key=str)[0] if orders else None
+            continue
+        # the other polarity: `fn copy_if_shared(&Arc<T>) -> Option<Arc<T>>` answers `None` exactly when the handle was found
+        # to be the sole owner (every None/Err path passed the gate-true edge, no Some/Ok path did)
+        pos = neg = 0
+        ok = True
+        orders = set()
+        for p in prs:
+            if p.exit != "ret" or p.tag is None:
+                continue
+            blocks = list(p.blocks)
+            passed = [(x, y, o) for (x, y, o) in edges for i in range(len(blocks) - 1) if blocks[i] == x and blocks[i + 1] == y]
+            if p.tag in ("None", "Err"):
+                neg += 1
+                if not passed:
+                    ok = False
+                orders |= set(o for (_x, _y, o) in passed)
+            else:
+                pos += 1
+                if passed:
+                    ok = False
+        if ok and pos and neg:
+            G._derived_neg[b["key"]] = sorted(orders, key=str)[0] if orders else None
     G._derived = out
     return out
 
@@ -256,7 +295,8 @@ def gate_edges_with_order(F, G, B, E=None):
     if E is None:
         return out
     D = derived_gates(F, G, E)
-    if not D:
+    DN = getattr(G, "_derived_neg", {})
+    if not D and not DN:
         return out
     for bi, bl in enumerate(B.blocks):
         tt = bl["term"]
@@ -268,16 +308,19 @@ def gate_edges_with_order(F, G, B, E=None):
             nm = atomics.callee_of(c["call"]) or ""
             if nm.endswith(("::is_some", "::is_ok", "::is_none", "::is_err")) and c["call"]["args"]:
                 o = B.origin(c["call"]["args"][0], through_refs=True)
-                if o.get("kind") == "call" and atomics.callee_of(o["term"]) in D:
+                if o.get("kind") == "call" and (atomics.callee_of(o["term"]) in D or atomics.callee_of(o["term"]) in DN):
+                    ck = atomics.callee_of(o["term"])
                     roots = set()
                     for a in o["term"]["args"][:1]:
                         pl = operand_place(a)
                         if pl is not None:
                             roots |= root_args(B, pl["l"])
                     positive = nm.endswith(("::is_some", "::is_ok"))
+                    if ck in DN:
+                        positive = not positive
                     for tgt, tv in B.switch_truth(tt).items():
                         if (tv != c["neg"]) == positive:
-                            out.append((bi, tgt, roots, D[atomics.callee_of(o["term"])]))
+                            out.append((bi, tgt, roots, D[ck] if ck in D else DN[ck]))
             continue
         # `match f(x) { Some(..) / Ok(..) => .. }`
         pl = operand_place(tt["discr"])
@@ -286,17 +329,24 @@ def gate_edges_with_order(F, G, B, E=None):
         d = B.single_def(pl["l"])
         if d and d[0] == "assign" and d[3]["k"] == "discr" and not d[3]["place"]["p"]:
             o = B.origin_local(d[3]["place"]["l"])
-            if o.get("kind") == "call" and atomics.callee_of(o["term"]) in D:
-                ot = F.ty(F.body(atomics.callee_of(o["term"]))["output"])
+            if o.get("kind") == "call" and (atomics.callee_of(o["term"]) in D or atomics.callee_of(o["term"]) in DN):
+                ck = atomics.callee_of(o["term"])
+                ot = F.ty(F.body(ck)["output"])
                 pos_val = 1 if ot["path"] == "core::option::Option" else 0
+                if ck in DN:
+                    pos_val = 1 - pos_val  # the variant that means "sole owner" is None / Err here
                 roots = set()
                 for a in o["term"]["args"][:1]:
                     apl = operand_place(a)
                     if apl is not None:
                         roots |= root_args(B, apl["l"])
+                hit = False
                 for v, tgt in tt["arms"]:
                     if v == pos_val:
-                        out.append((bi, tgt, roots, D[atomics.callee_of(o["term"])]))
+                        hit = True
+                        out.append((bi, tgt, roots, D[ck] if ck in D else DN[ck]))
+                if not hit and len(tt["arms"]) == 1 and tt["arms"][0][0] == 1 - pos_val and tt.get("otherwise") is not None:
+                    out.append((bi, tt["otherwise"], roots, D[ck] if ck in D else DN[ck]))  # `if let Some(copy) = f(x) { .. }`: the else edge
     return out
 
 
@@ -505,6 +555,15 @@ def fresh_value(F, E, B, op, depth=0):
     if _through_unique(F, B, pl, set()):
         return True
     if pl["p"]:
+        # the payload of `Some(..)` / `Ok(..)` returned by a local function all of whose Some/Ok paths build a fresh sole owner
+        # (`fn copy_if_shared(&Arc<T>) -> Option<Arc<T>>`: `if let Some(copy) = copy_if_shared(this) { *this = copy }`)
+        if len(pl["p"]) == 2 and isinstance(pl["p"][0], dict) and "dc" in pl["p"][0] and str(pl["p"][0].get("name", "")) in ("Some", "Ok") and isinstance(pl["p"][1], dict) and pl["p"][1].get("f") == 0:
+            o = B.origin_local(pl["l"])
+            if o.get("kind") == "call":
+                ck = atomics.callee_of(o["term"])
+                if ck in F.bodies:
+                    effs = [e for e in E.summary(ck) if e.exit == "ret" and e.tag in ("Some", "Ok")]
+                    return bool(effs) and all(c04.is_new(e.vec) for e in effs)
         return False
     ds = B.defs().get(pl["l"], [])
     if not ds:
